@@ -25,6 +25,10 @@ def work(slot_names):
     subprocess.run(['git', '-C', '/repo', 'worktree', 'add', '-q', '--detach', wt, 'HEAD'], check=True)
     for n in todo:
         pid = n.split('-')[0]
+        try:
+            pid = json.load(open(os.path.join(ROOT, 'seeded', n, 'meta.json'))).get('violates_instead', pid)
+        except Exception:
+            pass
         subprocess.run('git checkout -q -- . && git clean -fdq', cwd=wt, shell=True)
         r = subprocess.run(['git', 'apply', os.path.join(ROOT, 'seeded', n, 'patch.diff')], cwd=wt, capture_output=True, text=True)
         if r.returncode != 0:
@@ -39,7 +43,7 @@ def work(slot_names):
             t0 = time.time()
             c = subprocess.run([os.path.join(ROOT, 'check'), pid, 'quick'], cwd=ROOT, env=env, stdout=subprocess.PIPE, stderr=subprocess.STDOUT, text=True)
             lines = [l for l in c.stdout.splitlines() if l.startswith(('VIOLATION', '  check=', '  expected', '  actual', 'OK', 'INCONCLUSIVE'))][:4]
-            res = {'status': {0: 'MISSED', 1: 'caught', 2: 'inconclusive'}.get(c.returncode, str(c.returncode)), 'seconds': round(time.time() - t0, 1), 'output': lines, 'harness_rev': rev}
+            res = {'check': pid, 'status': {0: 'MISSED', 1: 'caught', 2: 'inconclusive'}.get(c.returncode, str(c.returncode)), 'seconds': round(time.time() - t0, 1), 'output': lines, 'harness_rev': rev}
         json.dump(res, open(os.path.join(ROOT, 'seeded', n, 'recheck.json'), 'w'), indent=1)
         print(n, res['status'], res.get('seconds', ''), flush=True)
         out.append((n, res['status']))
